@@ -318,7 +318,10 @@ def r4(ctx, facts, model):
         ctx.ob("C02-R4", "%s returns the handles it killed" % b.path, okp, b.loc(), "" if okp else why)
 
 
-ALPHABET = ("world::entity::Generation::", "world::entity::ZeroableGeneration::", "world::entity::Allocator::generation")
+ALPHABET = ("world::entity::Generation::", "world::entity::ZeroableGeneration::")
+# pure accessors of the generation table: looked through at ANY depth (never counted against the depth bound, never named) - a sibling may
+# read `generations[id]` itself or through the accessor (benign C06-p1: the three join get()s share a helper that indexes the table directly)
+ACCESSORS = ("world::entity::Allocator::generation",)
 
 
 def callee_set(facts, b, depth=3, _seen=None):
@@ -339,6 +342,10 @@ def callee_set(facts, b, depth=3, _seen=None):
             # the generation primitives are what the siblings are compared BY: always named, never looked through (looking through them
             # up to a depth bound made the comparison depend on how deep below the sibling the call sits)
             out.add(p)
+            continue
+        if p in ACCESSORS:
+            for tb in facts.targets(c):
+                out |= callee_set(facts, tb, depth, _seen)
             continue
         tgs = facts.targets(c) if c.get("crate") == "specs" and not (c.get("trait") and not c.get("resolved")) else []
         if len(tgs) == 1 and tgs[0].kind != "Closure" and depth > 0 and tgs[0].path not in _seen:
